@@ -89,6 +89,22 @@ func drawPipeline(svgSrc string, fonts text.FontConfiguration) drawn {
 	return d
 }
 
+// drawPipelineRaw renders a whole HTML document through the renderer.
+func drawPipelineRaw(src string, fonts text.FontConfiguration) drawn {
+	var d drawn
+	d.pipe = true
+	d.oc = render.Guard(30*time.Second, func() {
+		doc, err := render.Full(src, fonts, render.Opts{})
+		if err != nil {
+			d.err = err
+			return
+		}
+		d.rec = doc.Rec
+		d.evs = doc.Rec.Events
+	})
+	return d
+}
+
 func errClass(err error) string {
 	switch {
 	case err == nil:
@@ -151,6 +167,9 @@ func Run(tier string, seed uint64, modelPath, repo string, out *res.Result) erro
 		return err
 	}
 	if err := runViewbox(m, r.Sub(), nVB, out); err != nil {
+		return err
+	}
+	if err := runRootNoViewbox(m, r.Sub(), nVB/2, fonts, out); err != nil {
 		return err
 	}
 	if err := runUse(m, r.Sub(), nUse, out); err != nil {
